@@ -430,4 +430,61 @@ def rule_model(ctx):
     return r
 
 
-RULES = [rule_forbid, rule_filter, rule_agree, rule_apply, rule_model]
+EXACT_ATTRS = {"_flops", "_sizes", "_write", "nslices", "contractions", "_flop_reductions", "_where",
+               "original_flops", "multiplicity"}
+
+
+def exact_cost_divisions(ctx, funcs, rule_id, r):
+    """Costs routinely exceed 2**53 and are kept as exact Python integers; a true division turns a
+    figure into a float, after which running totals silently drop low-order terms.  In every
+    function that writes an exact figure, no assigned value is computed with `/`."""
+    for f in funcs:
+        writes = False
+        for n in walk_local(f.node):
+            tg = []
+            if isinstance(n, ast.Assign):
+                tg = n.targets
+            elif isinstance(n, ast.AugAssign):
+                tg = [n.target]
+            for t in tg:
+                base = t
+                while isinstance(base, ast.Subscript):
+                    base = base.value
+                if isinstance(base, ast.Attribute) and base.attr in EXACT_ATTRS:
+                    writes = True
+                if isinstance(t, ast.Subscript) and isinstance(t.slice, ast.Constant) and \
+                        t.slice.value in ("flops", "size"):
+                    writes = True
+        if not writes:
+            continue
+        divs = []
+        for n in walk_local(f.node):
+            if isinstance(n, (ast.Assign, ast.AugAssign)):
+                if isinstance(n, ast.AugAssign) and isinstance(n.op, ast.Div):
+                    divs.append(n)
+                for x in ast.walk(n.value):
+                    if isinstance(x, ast.BinOp) and isinstance(x.op, ast.Div):
+                        # ratios fed to float-valued helpers are not exact figures
+                        par = f.module.parents.get(x)
+                        if isinstance(par, ast.Call) and (dotted(par.func) or "").split(".")[-1] in (
+                                "log", "log2", "log10", "float", "exp", "sqrt"):
+                            continue
+                        divs.append(n)
+        key = ctx.key(f, rule_id)
+        if divs:
+            r.violation(key, C.loc(f, divs[0]), f"`{C.unparse(divs[0], 60)}` computes a stored cost figure with true "
+                        f"division: the figure becomes a float and is exact only below 2**53, while the "
+                        f"contractions worth slicing cost far more")
+        else:
+            r.ok(key, f.loc, "stored figures are computed with integer arithmetic only")
+
+
+def rule_intcost(ctx):
+    r = RuleResult("C07-INTCOST", "the cost model keeps exact integers", 2)
+    cc = ctx.p.cls(C.SLICER, "ContractionCosts")
+    C.require(cc is not None, "ContractionCosts not found")
+    exact_cost_divisions(ctx, list(cc.methods.values()), "C07-INTCOST", r)
+    return r
+
+
+RULES = [rule_forbid, rule_filter, rule_agree, rule_apply, rule_model, rule_intcost]
